@@ -293,9 +293,7 @@ def judge (arg impl : String) : String :=
 
 /-! ### vgmsong: `vgmsong <flags> T,<11 tag fields> <mml hex>`; flags: `L` loop expected / `N` none / `?` -/
 
-def songJudge (arg impl : String) : String :=
-  match words arg with
-  | [flag, tags, _mml] =>
+def songJudgeP (flag tags : String) (pcm : Option (List Bytes)) (impl : String) : String :=
     -- get_tags (song.cpp): the creator string is #programmer, or else the author
     let raw := match parseOp tags with
       | some (_, some l) =>
@@ -316,9 +314,29 @@ def songJudge (arg impl : String) : String :=
             else if flag == "N" ∧ info.loopIdx.isSome then "fail loop offset in a song without loop point"
             else if flag == "L" ∧ field32 f 0x20 = 0 ∧ info.total ≠ 0 ∧ info.loopIdx == some 0 then "fail loop length lost"
             else match raw with
-              | some raw => (match tagsOk info.strs raw with | some w => s!"fail {w}" | none => "ok")
+              | some raw =>
+                match tagsOk info.strs raw with
+                | some w => s!"fail {w}"
+                | none =>
+                  match pcm with
+                  | none => "ok"
+                  | some samples =>
+                    let ws := streamWindows info.cmds
+                    if ws.isEmpty then "fail no stream start for a song with PCM notes"
+                    else match ws.find? (fun w => !samples.contains w) with
+                      | some w => s!"fail stream start addresses {w.length} bytes that are not an instrument's sample"
+                      | none => "ok"
               | none => "ok"
       | _, _, _ => "fail no file produced"
+
+/-- `vgmsong <flag> T,… <mml hex> [P,<sample hex>,…]` -/
+def songJudge (arg impl : String) : String :=
+  match words arg with
+  | [flag, tags, _mml] => songJudgeP flag tags none impl
+  | [flag, tags, _mml, p] =>
+    match (p.splitOn ",").drop 1 |>.mapM bytesOfHex with
+    | some l => songJudgeP flag tags (some l) impl
+    | none => "skip"
   | _ => "skip"
 
 def handlers : List Driver.Handler :=
